@@ -56,25 +56,24 @@ Proof.
 Qed.
 
 (** ** YIELD *)
-Theorem yield_replies : forall lookup d callee req opts args kw m,
-    dealer_wf lookup d -> In m (snd (sync_yield d callee req opts args kw)) ->
+Theorem yield_replies : forall lookup lk d callee req opts args kw m,
+    dealer_wf lookup d -> In m (snd (sync_yield lk d callee req opts args kw)) ->
     forall cid fin, reply_of m = Some (cid, fin) ->
       cget (d_calls d) cid = Some (fst cid) /\
       exists inv, cget (d_invs d) (callee, req) = Some inv /\ inv_call inv = cid /\
                   fin = negb (opt_bool opts "progress") /\
                   (fin = true ->
-                   cget (d_calls (fst (sync_yield d callee req opts args kw))) cid = None).
+                   cget (d_calls (fst (sync_yield lk d callee req opts args kw))) cid = None).
 Proof.
-  intros lookup d callee req opts args kw m WF Hin cid fin Hr.
-  pose proof (answer_routing_yield_proof lookup d callee req opts args kw WF) as H.
+  intros lookup lk d callee req opts args kw m WF Hin cid fin Hr.
+  pose proof (answer_routing_yield_proof lookup lk d callee req opts args kw WF) as H.
   destruct (cget (d_invs d) (callee, req)) as [inv|] eqn:Hi.
-  - destruct H as ((Hc & Hb & _) & Eo). rewrite Eo in Hin. destruct Hin as [<-|[]].
-    cbn [reply_of] in Hr. rewrite pair_eta in Hr.
-    assert (Ef : negb (opt_bool (if opt_bool opts "progress" then [("progress", VBool true)] else []) "progress")
-                 = negb (opt_bool opts "progress")) by (destruct (opt_bool opts "progress"); reflexivity).
-    rewrite Ef in Hr. inversion Hr; subst cid fin. split; [exact Hc|].
+  - cbv zeta in H. destruct H as ((Hc & Hb & _) & _ & _ & Hm & _).
+    destruct (Hm m Hin) as [R|(_ & R)]; [|congruence].
+    rewrite R in Hr. inversion Hr; subst cid fin. split; [exact Hc|].
     exists inv. repeat split; auto. intros Hf. apply negb_true_iff in Hf.
-    rewrite (sync_yield_owner _ _ _ _ _ _ _ Hi), Hf. cbn [fst]. rewrite dc_calls. apply cget_cdel_same.
+    rewrite (sync_yield_owner _ _ _ _ _ _ _ _ Hi), Hf. cbn [fst]. unfold yield_result_state.
+    rewrite dc_calls. apply cget_cdel_same.
   - rewrite H in Hin. cbn [snd] in Hin.
     destruct (opt_bool opts "progress"); [destruct Hin as [<-|[]]; discriminate Hr | destruct Hin].
 Qed.
@@ -160,13 +159,16 @@ Proof.
   pose proof (call_cases cfg lookup now d caller req opts proc args kw oracle) as H.
   inversion H as [Hm E|r Hm Hc E|r Hm Hc Ha E|r ikey Hm Hc Ha Hb Hi E|r ikey inv Hm Hc Ha Hb Hi Hl E
                   |r ikey inv callee Hm Hc Ha Hb Hi Hl E|r Hm Hc Ha Hb Hs E|r cid0 next Hm Hc Ha Hb Hs Hl E
-                  |r cid0 next callee Hm Hc Ha Hb Hs Hl Hf E|r cid0 next callee Hm Hc Ha Hb Hs Hl Hf Hd E
-                  |r cid0 next callee Hm Hc Ha Hb Hs Hl Hf Hd E];
+                  |r cid0 next callee Hm Hc Ha Hb Hs Hl Hf E
+                  |r cid0 next callee Hm Hc Ha Hb Hs Hl Hf Hpa E|r cid0 next callee Hm Hc Ha Hb Hs Hl Hf Hpa Hpr E
+                  |r cid0 next callee Hm Hc Ha Hb Hs Hl Hf Hpa Hpr Hd E
+                  |r cid0 next callee Hm Hc Ha Hb Hs Hl Hf Hpa Hpr Hd E];
     rewrite <- E in Hin; cbn [call_out] in Hin; try (destruct Hin as [<-|[]]); try (destruct Hin; fail);
     try discriminate Hr; cbn in Hr; inversion Hr; subst cid fin;
     (split; [reflexivity|]; split; [reflexivity|]; eexists; split; [reflexivity|]).
   - exact Hnps.
   - exact Hnps.
+  - apply Hsame; auto.
   - apply Hsame; auto.
   - apply Hsame; auto.
   - apply Hsame; auto.
